@@ -8,9 +8,18 @@ From ZT Require Import Base Layers LayersFacts Run RunFacts.
 Definition layer_ev (e : ev) : bool :=
   match e with ESetUp _ _ | ETearDown _ _ | ESummary _ _ _ _ _ | ECannot _ => true | _ => false end.
 
+(* a layer event; a layer without the hook "succeeds" (ghost event with outcome HOk) *)
+Definition lev_ok (w : rworld) (e : ev) : Prop :=
+  layer_ev e = true /\
+  match e with
+  | ESetUp l out => l_setup (spec_of w l) = None -> out = HOk
+  | ETearDown l out => l_teardown (spec_of w l) = None -> out = HOk
+  | _ => True
+  end.
+
 Inductive wb (w : rworld) : list ev -> Prop :=
 | wb_nil : wb w []
-| wb_layer e r : layer_ev e = true -> wb w r -> wb w (e :: r)
+| wb_layer e r : lev_ok w e -> wb w r -> wb w (e :: r)
 | wb_test l t b mid r :
     nth_error (tests w) t = Some b -> t_layer b = l -> Forall (is_inner_ev t) mid -> wb w r ->
     wb w (hooks_up w l ++ EStart t :: mid ++ hooks_down w l ++ EStop t :: r).
@@ -28,7 +37,7 @@ Proof.
   - rewrite <- !app_assoc. simpl. rewrite <- !app_assoc. simpl. reflexivity.
 Qed.
 
-Lemma wb_snoc a e : wb w a -> layer_ev e = true -> wb w (a ++ [e]).
+Lemma wb_snoc a e : wb w a -> lev_ok w e -> wb w (a ++ [e]).
 Proof. intros Ha He. apply wb_app; [exact Ha | constructor; [exact He | constructor]]. Qed.
 
 Lemma run_test_wb l t b s : nth_error (tests w) t = Some b -> t_layer b = l ->
@@ -57,7 +66,7 @@ Proof.
   { apply run_seq_wb; [|constructor]. intros t b H. apply tests_of_spec in H. exact H. }
   assert (H1 : wb w (ps_ev p ++ rs_ev rs ++ [ESummary l (rs_run rs) (length (rs_fail rs) + length (rs_us rs))
                                    (length (rs_err rs) + o_import_errors o) (rs_skip rs)])).
-  { apply wb_app; [exact Hp|]. apply wb_snoc; [exact Hrs | reflexivity]. }
+  { apply wb_app; [exact Hp|]. apply wb_snoc; [exact Hrs | split; [reflexivity | exact I]]. }
   destruct (rs_stop rs); [exact H1|]. apply IH. exact H1.
 Qed.
 
@@ -71,7 +80,8 @@ Proof.
     destruct x; [apply IHb; exact Hq|]. specialize (IH b q Hq). destruct (setup_layer w f b q) as [q1 x1]. apply IHb. exact IH. }
   specialize (Hfold (bases_of (lw w) l) p false Hp).
   destruct (fold_left F (bases_of (lw w) l) (p, false)) as [p1 exc]. simpl in Hfold.
-  destruct exc; [exact Hfold|]. cbn [fst ps_ev]. apply wb_snoc; [exact Hfold | reflexivity].
+  destruct exc; [exact Hfold|]. cbn [fst ps_ev]. apply wb_snoc; [exact Hfold|].
+  split; [reflexivity|]. intros E0. rewrite E0. reflexivity.
 Qed.
 
 Lemma td_loop_wb : forall order optional p, wb w (ps_ev p) -> wb w (ps_ev (fst (td_loop w order optional p))).
@@ -82,9 +92,10 @@ Proof.
                 ps_att_td := inc l (ps_att_td p); ps_ran := ps_ran p; ps_fail := ps_fail p;
                 ps_err := match out with HRaise => ps_err p ++ [NLayerTearDown l] | _ => ps_err p end;
                 ps_skip := ps_skip p; ps_ev := ps_ev p ++ [ETearDown l out] |}).
-  assert (H1 : wb w (ps_ev p1)) by (unfold p1; cbn [ps_ev]; apply wb_snoc; [exact Hp | reflexivity]).
+  assert (H1 : wb w (ps_ev p1)).
+  { unfold p1. cbn [ps_ev]. apply wb_snoc; [exact Hp|]. split; [reflexivity|]. intros E0. unfold out. rewrite E0. reflexivity. }
   destruct out; [apply IH; exact H1 | apply IH; exact H1 |]. destruct optional; [apply IH; exact H1|].
-  cbn [fst pemit ps_ev]. apply wb_snoc; [exact H1 | reflexivity].
+  cbn [fst pemit ps_ev]. apply wb_snoc; [exact H1 | split; [reflexivity | exact I]].
 Qed.
 
 Lemma run_layer_wb l p : wb w (ps_ev p) -> wb w (ps_ev (fst (run_layer w o l p))).
@@ -130,7 +141,7 @@ Proof.
   set (A := if 1 <? o_procs o then _ else _).
   assert (HA : wb w (ps_ev (fst (fst (fst (fst A)))))).
   { unfold A. destruct (1 <? o_procs o).
-    - simpl. induction (reps o) as [|k IHk]; simpl; [constructor | constructor; [reflexivity | exact IHk]].
+    - simpl. induction (reps o) as [|k IHk]; simpl; [constructor | constructor; [split; [reflexivity | exact I] | exact IHk]].
     - apply parent_loop_wb. constructor. }
   destruct A as [[[[p1 ran1] rest] resume] n1]. simpl in HA.
   set (B := if resume then _ else _).
@@ -158,7 +169,7 @@ Theorem wb_balanced w x : l_tsetup (spec_of w x) = l_tteardown (spec_of w x) ->
   forall tr, wb w tr -> count (n_tsu x) tr = count (n_ttd x) tr.
 Proof.
   intros Hboth tr H. induction H as [|e r He Hr IH|l t b mid r Hn Hl Hm Hr IH]; [reflexivity| |].
-  - simpl. rewrite IH. destruct e; simpl in He; try discriminate; reflexivity.
+  - simpl. rewrite IH. destruct He as [He _]. destruct e; simpl in He; try discriminate; reflexivity.
   - rewrite !count_app. simpl. rewrite !count_app. simpl. rewrite IH.
     assert (Hmid : count (n_tsu x) mid = 0 /\ count (n_ttd x) mid = 0).
     { clear - Hm. induction Hm as [|e mid He _ IHm]; [auto|]. simpl. destruct IHm as [-> ->].
